@@ -32,7 +32,11 @@ notes = {'C02': 'own transcription of the table names / formats added (one of th
          'C03': 'zero-mode surfaces and specified centres carried through derived geometries',
          'C18': 'blocks renamed before rectgeo',
          'C12': 'points level with vertices on nearly level sides; interior points with far-away guesses',
-         'C06': 'short-table row selections'}
+         'C06': 'short-table row selections',
+         'C05': 'result times also reached through last / negative indices / next / prev / time / step before comparing with the text (round 2)',
+         'C10': 'primitive followed directly by check(fix=True) without the harness refreshing in between (round 2)',
+         'C14': 'exact end points of the temperature and pressure ranges; own region definition tests the range in degC (round 2)',
+         'C19': 'derived geometries (surfaces, then layer / column refinement) as the SOURCE of a mapping (round 2)'}
 rebased = []
 rows = []
 for s in sorted(os.listdir(os.path.join(V, 'seeded'))):
@@ -45,8 +49,10 @@ for s in sorted(os.listdir(os.path.join(V, 'seeded'))):
     keys = ', '.join('`%s`' % k for k in (r[1][:2] if r else []))
     rows.append('| %s | %s | %s %s | %s |' % (s, summ, r[0] if r else 'NOT RUN', keys, notes.get(prop, '')))
 out += ['', '### 8.4 Seeded changes (independent sub-agents) and which checks catch them', '',
-        'Forty changes were written by fresh sub-agents that were given only the text of one property and a scratch git',
-        'worktree of /repo (nothing from /verif).  Each was confirmed (`tools/ingest_seed.py`: applies, the 37 pinned tests',
+        '%d changes were written by fresh sub-agents (two rounds: <id>-1, <id>-2 early on, <id>-3 after all checks existed) that' % len(rows),
+        'were given only the text of one property and a scratch git worktree of /repo (nothing from /verif).  Four of the twenty',
+        'round-2 changes (C05-3, C10-3, C14-3, C19-3) escaped the checks as they were; the checks were strengthened (last',
+        'column) and now catch them.  Each change was confirmed (`tools/ingest_seed.py`: applies, the 37 pinned tests',
         'still pass, the agent\'s demonstration fails with the change and passes without) and is kept under',
         '`/verif/seeded/<id>-<n>/` (patch.diff, demo.py, meta.json).  %d patches (%s) had to be re-expressed by hand' % (len(rebased), ', '.join(rebased)),
         'after `fix:` commits touched the same lines (meta.json `rebased`).  The table is the last full run of',
